@@ -5,9 +5,18 @@ set -u
 PATCH="$1"; TIER="${2:-quick}"; shift; shift 2>/dev/null || true
 PROPS="${@:-C01 C02 C03 C04 C05 C06 C07 C08 C09 C10 C11 C12 C13 C14 C15 C16 C17}"
 cd "$(dirname "$0")/.."
+if [ -n "${TRY_SCRATCH:-}" ]; then
+  # iterate in a scratch worktree of /repo (outside /repo and /verif) so that a background sweep on /repo is not disturbed
+  WT=$(mktemp -d /tmp/try_wt_XXXXXX); rmdir "$WT"
+  git -C /repo worktree add --detach "$WT" HEAD -q || exit 2
+  git -C "$WT" apply "$PATCH" || { echo "patch does not apply"; git -C /repo worktree remove --force "$WT"; exit 2; }
+  export ALGOPY_REPO="$WT"
+  trap 'git -C /repo worktree remove --force "$WT"; git -C /repo worktree prune' EXIT
+else
 if ! git -C /repo diff --quiet; then echo "/repo has uncommitted changes; refusing"; exit 2; fi
 git -C /repo apply "$PATCH" || { echo "patch does not apply"; exit 2; }
 trap 'git -C /repo checkout -- . ' EXIT
+fi
 OUT=$(mktemp -d)
 for p in $PROPS; do
   ( VERIF_EVIDENCE_DIR="$OUT" ./check $p --tier $TIER --no-proof > "$OUT/$p.log" 2>&1; echo $? > "$OUT/$p.rc" ) &
